@@ -12,7 +12,7 @@ LineJudge(ln, r) ==
   /\ ln.st = r.st
   /\ ln.allocs = 0                                     \* the call requests / releases no memory
   /\ ln.st = "fin" =>
-        /\ ln.calls = 1                                 \* exactly one callback ...
+        /\ ln.calls = 1 /\ ln.ctx                      \* exactly one callback, handed the caller's context pointer ...
         /\ ln.slot = r.slot                             \* ... the one for this head
         /\ ln.read = r.read
         /\ Eq(ln.req, <<>>)
